@@ -81,6 +81,19 @@ def port_name(desc, ch, port):
     return desc["defs"][ch["sub"]]["expo"][port][2]
 
 
+def empty_model(kind):
+    """a model without pins: the documented placeholder, a pin-less model that still carries a matrix, or the
+    result of solving a circuit without exposing any pin"""
+    if kind == 1:
+        return lk.Model(Smatrix=np.array([[0.0, 1.0], [1.0, 0.0]], complex))
+    if kind == 2:
+        with lk.Solver() as hidden:
+            lk.Waveguide(1.0).put()
+        import logging
+        return hidden.solve(wl=1.0)
+    return lk.Model()
+
+
 def build_all(desc):
     """build every definition as a Solver (lower indices first); returns {k: (solver, [structures])}"""
     built = {}
@@ -89,7 +102,7 @@ def build_all(desc):
         with lk.Solver(name=f"def{k}") as S:
             for ch in d["children"]:
                 if "empty" in ch:
-                    sts.append(lk.Model().put())
+                    sts.append(empty_model(ch.get("ekind", 0)).put())
                 elif "leaf" in ch:
                     sts.append(netlib.comp_model(ch["leaf"]).put())
                 else:
